@@ -555,6 +555,25 @@ def load_fuzz_corpus(ctx, n_quick, salt=0):
     return [list(s) for s in rr.sample(scs, n_quick)]
 
 
+def load_fuzz_lines(prefixes):
+    """corpus/fuzz/fn.jsonl: one-line scripts for the stateless families distilled offline (tools/fuzz_distill.py with FUZZ_TARGET=fn);
+    returns the lines that start with one of the prefixes"""
+    p = os.path.join(CORPUS, "fuzz", "fn.jsonl")
+    out = []
+    if os.path.exists(p):
+        for l in open(p):
+            l = l.strip()
+            if not l:
+                continue
+            try:
+                j = json.loads(l)
+            except Exception:
+                continue
+            if isinstance(j, list) and len(j) == 1 and any(j[0].startswith(x) for x in prefixes):
+                out.append(j[0])
+    return out
+
+
 def load_corpus(prop):
     """minimised past disagreements / violations: corpus/<prop>/*.json each {"script": [...]}; run first"""
     out = []
